@@ -158,6 +158,58 @@ def diff_case(draw, tier):
             "axis": draw(st.sampled_from([-1, 1, None])), "lz": draw(st.sampled_from(LAZY_CHOICES))}
 
 
+def body_sequence(case, ctx):
+    """2-5 steps on ONE evolving array: a row-wise scan/reordering replaces the current array by its result; an in-place
+    write changes a cell of the current array.  Every result equals numpy applied to each row of the model."""
+    a = case["a"]
+    rows = [r.copy() for r in np_rows(a)]
+    cur = lazy_ra(rows, a["dt"], case["lz"])
+    ctx.label(*gen.shape_labels(a["lens"]), "dt:" + a["dt"], "steps:%d" % len(case["steps"]))
+    ctx.nt(len(case["steps"]) >= 2 and any(s[0] == "write" for s in case["steps"]))
+    with np.errstate(all="ignore"):
+        for k, st_ in enumerate(case["steps"]):
+            ctx.label("seq:" + st_[0])
+            info = dict(step=k, op=st_, before=case["steps"][:k])
+            if st_[0] == "write":
+                cells = [(i, j) for i, r in enumerate(rows) for j in range(len(r))]
+                if not cells:
+                    continue
+                i, j = cells[st_[1] % len(cells)]
+                dtk = rows[i].dtype
+                v = np.array(bool(st_[2] % 2)) if dtk == bool else np.array(abs(st_[2]) if dtk.kind == "u" else st_[2], dtype=dtk)
+                out = lib(cur.__setitem__, (i, j), v)
+                if not out.ok:
+                    raise Violation("seq-write:refused", got=out.brief(), **info)
+                rows[i][j] = v
+                expect_ragged(lib(lambda: cur), rows, "seq-after-write", **info)
+                continue
+            name = st_[0]
+            if name == "sort":
+                exp, f = [np.sort(r) for r in rows], (lambda: cur.sort())
+            elif name == "unique":
+                exp, f = [np.unique(r) for r in rows], (lambda: np.unique(cur, axis=-1))
+            elif name == "diff":
+                exp, f = [np.diff(r) for r in rows], (lambda: np.diff(cur, axis=-1))
+            elif name == "cumsum":
+                if rows and rows[0].dtype.kind not in "iu" or not sum(len(r) for r in rows):
+                    continue
+                exp, f = [np.cumsum(r) for r in rows], (lambda: np.cumsum(cur, axis=-1))
+            else:
+                raise ValueError(name)
+            got = lib(f)
+            expect_ragged(got, exp, "seq-" + name, **info)
+            rows = [np.array(e) for e in exp]
+            cur = got.value
+
+
+@st.composite
+def sequence_case(draw, tier):
+    a = draw(gen.ragged(tier, dts=["int64", "int8", "uint8", "float64", "bool", "int32"], specials=False, min_rows=1))
+    step = st.one_of(st.sampled_from([["sort"], ["unique"], ["diff"], ["cumsum"], ["sort"], ["unique"]]),
+                     st.tuples(st.just("write"), st.integers(0, 1000), st.integers(-100, 100)).map(list))
+    return {"a": a, "steps": draw(st.lists(step, min_size=2, max_size=5)), "lz": draw(st.sampled_from(LAZY_CHOICES))}
+
+
 SUBCHECKS = [
     SubCheck("cumsum", body_cumsum, cumsum_case, quick=6000, thorough=500000, shards_quick=3,
              doc="np.cumsum / .cumsum(axis=-1|1) on integer dtypes (wrap-around as numpy), axis=None, non-integer dtypes rejected"),
@@ -169,6 +221,9 @@ SUBCHECKS = [
              doc="np.unique(axis=-1|1|None, return_counts) = per-row sorted distinct values and multiplicities"),
     SubCheck("diff", body_diff, diff_case, quick=6000, thorough=500000, shards_quick=3,
              doc="np.diff of order 0..5 per row; rows shorter than n become empty"),
+    SubCheck("scan-sequence", body_sequence, sequence_case, quick=5000, thorough=300000, shards_quick=3,
+             doc="2-5 steps on one evolving array (sort / unique / diff / cumsum replace it by their result; in-place cell writes "
+                 "in between), each result compared with numpy per row - state carried by results shows up here"),
     SubCheck("probe-K2-float-accumulate", body_accumulate_inexact, lambda tier: accumulate_case(tier, inexact=True),
              quick=300, thorough=3000, shards_quick=1, shards_thorough=1, finding_id="K2-float-accumulate-inexact",
              doc="directed probe: float add/subtract accumulate with non-finite or not exactly representable partial sums"),
